@@ -39,7 +39,7 @@ package rtcp
 //@   safety[C09]
 //@   fresh
 //@   ensures[C08,C16] ok: (err == nil) <==> r.TotalLost < 1<<24
-//@   ensures[C03,C05,C16] layout: err == nil ==> len(result) == 24 && specRREncoded(result, 0, r)
+//@   ensures[C03,C05,C16,C02,C09] layout: err == nil ==> len(result) == 24 && specRREncoded(result, 0, r)
 //@   ensures[C08] nobytes: err != nil ==> len(result) == 0
 
 //@ func (r *ReceptionReport) Unmarshal(rawPacket []byte) (err error)
@@ -48,7 +48,7 @@ package rtcp
 //@   modifies *r
 //@   nocap
 //@   ensures[C01,C04,C16] ok: (err == nil) <==> len(rawPacket) >= 24
-//@   ensures[C04,C16] fields: err == nil ==> *r == specRRDecode(rawPacket, 0)
+//@   ensures[C04,C16,C02,C09] fields: err == nil ==> *r == specRRDecode(rawPacket, 0)
 
 //@ func (r *ReceptionReport) len() (result int)
 //@   ensures result == 24
